@@ -142,6 +142,10 @@ def build_index_item(item):
     name = P.dec(item['name'])
     labels = item['index']
     if item['depth'] == 1:
+        if any(l[0] in ('d', 'nat') for l in labels):
+            arr = np.array([np.datetime64('NaT') if l[0] == 'nat' else P.dec(l) for l in labels], dtype='datetime64[D]')
+            arr.flags.writeable = False
+            return cls(arr, name=name)
         return cls([P.dec(l) for l in labels], name=name)
     py = [P.dec(l) for l in labels]
     R, outer, inner, first = _hier_routes(labels)
@@ -174,7 +178,35 @@ def gen_index_items(rng):
     '''a family of indices: the same content through several routes, plus single-point mutants (one label under an
     early / late parent, one label dropped, name, class)'''
     name = rng.choice([['none'], ['s', 'nm']])
-    if rng.random() < 0.3:
+    r0 = rng.random()
+    if r0 < 0.15:
+        # labels that hold a missing value (NaT in datetime labels, NaN in float labels): two missing labels at the same position are
+        # equal exactly when skipna is requested; separately built indices, several classes
+        if rng.random() < 0.6:
+            labels = [['d', 'D', 18000 + v] for v in rng.sample(range(20), rng.randint(1, 3))]
+            labels.insert(rng.randrange(len(labels) + 1), ['nat'])
+            classes = ['IndexDate', 'IndexDateGO', 'Index']
+            other = ['d', 'D', 18100]
+        else:
+            labels = [['f', 2 * v + 1, 2] for v in rng.sample(range(8), rng.randint(1, 3))]
+            labels.insert(rng.randrange(len(labels) + 1), ['nan'])
+            classes = ['Index', 'IndexGO']
+            other = ['f', 99, 2]
+        base = {'kind': 'index', 'cls': rng.choice(classes), 'name': name, 'index': labels, 'depth': 1, 'route': 'flat'}
+        items = [base, copy.deepcopy(base), dict(copy.deepcopy(base), cls=rng.choice(classes)), dict(copy.deepcopy(base), cls=rng.choice(classes), name=['s', 'other'])]
+        k = next(i for i, l in enumerate(labels) if l[0] in ('nat', 'nan'))
+        m = copy.deepcopy(base)
+        m['index'][k] = other                      # the missing label replaced by a value
+        items.append(m)
+        m = copy.deepcopy(base)
+        m['index'] = [l for l in m['index'] if l[0] not in ('nat', 'nan')] + [m['index'][k]]          # the missing label moved to the end
+        items.append(m)
+        m = copy.deepcopy(base)
+        m['index'] = [l for l in m['index'] if l[0] not in ('nat', 'nan')]
+        items.append(m)
+        rng.shuffle(items)
+        return items[:8]
+    if r0 < 0.4:
         labels = C.rand_labels(rng, rng.randint(0, 4), rng.choice(['str', 'int']))
         base = {'kind': 'index', 'cls': rng.choice(['Index', 'IndexGO']), 'name': name, 'index': labels, 'depth': 1, 'route': 'flat'}
         items = [base, dict(base), dict(base, cls='IndexGO' if base['cls'] == 'Index' else 'Index'), dict(base, name=['s', 'other'])]
